@@ -283,6 +283,11 @@ class _Walker:
             if t is not None and t != pol:
                 return  # infeasible path
         conds = _norm_conds([(c, pol) for c, pol in conds if _const_truth(c) is None])
+        for c, pol in conds:   # … and again atom by atom (`x is not None and …` with x bound to None)
+            t = _const_truth(c)
+            if t is not None and t != pol:
+                return
+        conds = [(c, pol) for c, pol in conds if _const_truth(c) is None]
         if len(self.out) >= self.max_paths:
             raise Unmodelled(f"more than {self.max_paths} paths")
         self.out.append(Outcome(kind, value, list(conds), st, dict(env), tuple(loops), list(effects)))
@@ -322,6 +327,12 @@ class _Walker:
                 if value is None:
                     continue
                 v = subst(value, env)
+                # `a, b = X, Y`: both right-hand sides are evaluated before either name is bound
+                if len(targets) == 1 and isinstance(targets[0], (ast.Tuple, ast.List)) and isinstance(v, (ast.Tuple, ast.List)) and len(v.elts) == len(targets[0].elts) \
+                        and all(isinstance(t, ast.Name) for t in targets[0].elts) and not any(isinstance(x, ast.Starred) for x in v.elts):
+                    for t, x in zip(targets[0].elts, v.elts):
+                        env[t.id] = x
+                    continue
                 simple = all(isinstance(t, ast.Name) for t in targets)
                 for t in targets:
                     if isinstance(t, ast.Name):
